@@ -113,6 +113,7 @@ def shards(tier, seed):
                             "pandas_max": 5 if tier == "quick" else 6, "seed": seed})
     L, k = (7, 4) if tier == "quick" else (9, 4)
     out = [{"kind": "asan", "variant": v, "L": L, "k": k} for v in ("fast", "twopass")] + out
+    out = [{"kind": "dtype", "dtype": dt, "L": 5 if tier == "quick" else 6} for dt in DTYPE_ALPHABETS] + out
     out = [{"kind": "long", "name": nm} for nm in long_records() if tier != "quick" or not nm.endswith("70000") or nm.startswith(("grow", "walk"))] + out
     # deterministic rotation by seed (order only)
     r = seed % len(out)
@@ -243,6 +244,42 @@ def check_seq(seq, pandas=False, meta=True, forms=False):
     return msgs, sig
 
 
+DTYPE_ALPHABETS = {
+    # values at and near the limits of every narrow dtype: ranges overflow / round if computed in the input's own dtype
+    "int8": [-128, -1, 0, 127], "uint8": [0, 1, 200, 255], "int16": [-32768, 0, 5, 32767], "uint16": [0, 3, 40000, 65535],
+    "int32": [-2147483648, 0, 7, 2147483647], "uint32": [0, 1, 3000000000, 4294967295], "int64": [-(2 ** 52), 0, 3, 2 ** 52],
+    "uint64": [0, 1, 2 ** 52, 2 ** 53], "float32": [2.0 ** 26, -1.0, 2.0 ** 24, 0.0, 2.0 ** 25], "float16": [-1024.0, 0.5, 3.0, 2048.0],
+    "bool": [False, True],
+}
+
+
+def check_dtype_seq(dt, seq):
+    """the counting is defined on the VALUES of the series: an array of any real dtype must give the table of the same
+    values held as float64 (all alphabet values are exactly representable in float64)"""
+    msgs = []
+    x = np.array(seq, dtype=dt)
+    exact = [float(v) for v in x]
+    rows = astm_rainflow(exact, set())
+    ref_rf = np.array([r[:3] for r in rows], dtype=float).reshape(-1, 3)
+    ref_os = np.array([r[3:] for r in rows], dtype=np.int64).reshape(-1, 2)
+    snap = x.copy()
+    for name in ("c_fast", "c_twopass", "py_rain", "cyclecount"):
+        fn = _IMPLS[name]
+        try:
+            t1 = np.asarray(fn(x))
+            t2, o2 = fn(x, getoffsets=True)
+        except Exception as e:  # noqa
+            msgs.append("%s raised %r for a %s array" % (name, e, dt))
+            continue
+        if not (_same(np.ascontiguousarray(t1, dtype=float), ref_rf) and _same(np.ascontiguousarray(t2, dtype=float), ref_rf)
+                and _same(np.ascontiguousarray(o2).astype(np.int64), ref_os)):
+            msgs.append("%s: a %s array gives a different table than the same values as float64: got %s want %s"
+                        % (name, dt, np.asarray(t2).tolist(), ref_rf.tolist()))
+    if not (x.dtype == snap.dtype and x.tobytes() == snap.tobytes()):
+        msgs.append("the %s input array was modified" % dt)
+    return msgs
+
+
 def long_records():
     """deterministic long records (bounded menu, not a sample of a larger space): length-dependent behaviour such as
     buffer sizing, index width or stack depth needs hundreds to tens of thousands of points"""
@@ -271,6 +308,18 @@ def run_shard(sh):
         res.ev("long/" + sh["name"].rstrip("0123456789") + "/n%d" % len(long_records()[sh["name"]]))
         for m in msgs:
             res.viol({"kind": "long", "name": sh["name"]}, m, kind="long-" + m.split(":")[0].split("(")[0][:30])
+        res.sample(dict(sh))
+        return res
+    if sh.get("kind") == "dtype":
+        res = Result()
+        dt = sh["dtype"]
+        vals = DTYPE_ALPHABETS[dt]
+        for n in range(2, sh["L"] + 1):
+            for seq in itertools.product(vals, repeat=n):
+                for m in check_dtype_seq(dt, list(seq)):
+                    res.viol({"kind": "dtype", "dtype": dt, "seq": [v if isinstance(v, (bool, float)) else int(v) for v in seq]}, m,
+                             kind="dtype-%s-%s" % (dt, m.split(":")[0].split(" raised")[0]))
+                res.ev("dtype/%s/n%d" % (dt, n))
         res.sample(dict(sh))
         return res
     res = Result()
@@ -307,6 +356,8 @@ def run_shard(sh):
 def replay(case):
     if case.get("kind") == "long":
         return check_long(case["name"])[0]
+    if case.get("kind") == "dtype":
+        return check_dtype_seq(case["dtype"], case["seq"])
     if "asan_variant" in case:
         _ASAN[case["asan_variant"]] = crain.build(case["asan_variant"], asan=True)
         n = len(case["seq"])
